@@ -80,7 +80,7 @@ def main():
         "setup_cmd": "./check --setup",
         "hooks": {
             "guard": "--cfg hannibal_verif",
-            "enable": "the generated shadow package (tools/gen_shadow.py: [lib] path=/repo/src/lib.rs, stub crates for tokio/async-std/smol/futures-timer, vendored futures-util) has a build.rs that emits cargo:rustc-cfg=hannibal_verif; the single hook is hannibal::__verif_reset_context_ids() (src/context.rs), called by the harness at the start of every simulated run. Everything else is seamed at the crate boundary, see DESIGN.md#4",
+            "enable": "the generated shadow package (tools/gen_shadow.py: [lib] path=/repo/src/lib.rs, stub crates for tokio/async-std/smol/futures-timer, vendored futures-util and async-lock) has a build.rs that emits cargo:rustc-cfg=hannibal_verif; the single hook is hannibal::__verif_reset_context_ids() (src/context.rs), called by the harness at the start of every simulated run. Everything else is seamed at the crate boundary, see DESIGN.md#4",
             "baseline_off_cmd": "cd /repo && cargo test --workspace --no-fail-fast --offline",
             "source_commits": ["bab04b7"],
             "add_only": True,
@@ -88,7 +88,7 @@ def main():
         "engines": [{
             "name": "hsim", "path": "harness/",
             "serves_properties": [c["property_id"] for c in checks],
-            "kind_free_text": "deterministic simulation with fault injection: scenario generator, interpreter over hannibal's public API, oracles over the recorded history, minimiser, replay; runs on simrt/ with stubs/ and vendor/futures-util",
+            "kind_free_text": "deterministic simulation with fault injection: scenario generator, interpreter over hannibal's public API, oracles over the recorded history, minimiser, replay; runs on simrt/ with stubs/, vendor/futures-util and vendor/async-lock",
         }],
         "checks": checks,
         "not_applicable": na,
